@@ -209,6 +209,7 @@ func TablesWith(c explore.Chooser, defaultCol string) *prog.Program {
 	dirtyFirst := s.Pick("user.unexported-first", "no", "yes")
 	linkCol := s.Pick("link.extra-col", "none", "composite", "array", "json")
 	keyColName := s.Pick("name.key-column", "Name", "Émail")
+	linkName := s.Pick("name.link", "Membership", "URLMember")
 	// the helper package named like the analysed package (models importing models/models)
 	// a string enum value with a character that SQL or Go quoting treats specially
 	sadValue := s.Pick("mood.sad-value", `sa d`, `can't`, `so "so"`, `up\down`)
@@ -371,6 +372,10 @@ func TablesWith(c explore.Chooser, defaultCol string) *prog.Program {
 	if keyColName != "Name" {
 		// a field name starting with a letter written on two bytes (the key / unique column of the directives)
 		rename["Name"] = keyColName
+	}
+	if linkName != "Membership" {
+		// a link table (the only kind written through COPY, with a quoted name) whose name starts with a run of capitals
+		rename["Membership"] = linkName
 	}
 	if tableName != "User" {
 		rename["User"] = tableName
